@@ -9,7 +9,7 @@
    `excluded d` are the specification (C02/Doc.v).  `supported_docx d` excludes exactly the
    constructs whose refutations follow below. *)
 From Coq Require Import ZArith List Bool.
-From S2T Require Import Lib.PyStr C02.Lib C02.Xml C02.Doc C02.DocProofs C02.Model C02.Proofs C02.Witness.
+From S2T Require Import Lib.PyStr C02.Lib C02.Xml C02.Doc C02.DocProofs C02.Model C02.Proofs C02.ProofsW C02.Witness.
 Import ListNotations.
 Open Scope N_scope.
 
@@ -26,6 +26,20 @@ Theorem C02_docx_separated :
     words ws (docx_text ws d) = segments d.
 Proof. intros ws cls_of d H9 H10 H32. exact (docx_words ws cls_of H9 H10 H32 d). Qed.
 Print Assumptions C02_docx_separated.
+
+(* the same for the rendering in which table rows / cells are wrapped in row-level / cell-level
+   content controls (w:tbl/w:sdt/w:sdtContent/w:tr, w:tr/w:sdt/w:sdtContent/w:tc) or w:customXml,
+   for EVERY choice of wrapped positions (masks rm, cm): the wrappers change neither words nor order *)
+Theorem C02_docx_separated_wrapped :
+  forall (ws : N -> bool) (cls_of : N -> N) (rm cm : list N) (d : doc),
+    ws 9 = true -> ws 10 = true -> ws 32 = true ->
+    wf_doc ws cls_of d = true -> supported_docx d = true ->
+    words ws (full_text_of_document ws (r_document_w rm cm d)) = segments d.
+Proof.
+  intros ws cls_of rm cm d H9 H10 H32 Hw Hs.
+  rewrite (docx_words_w_eq ws rm cm d H10 Hs). exact (docx_words ws cls_of H9 H10 H32 d Hw Hs).
+Qed.
+Print Assumptions C02_docx_separated_wrapped.
 
 (* fidelity: the non-whitespace characters of the full text are the visible leaves, each once, in
    document order *)
